@@ -5,11 +5,17 @@
    included), ints, booleans, floats (under the float-oracle law), URIs,
    language-tagged strings, and references of formal attributes — and, at record level,
    for the choice of the element name: a subtype element stands for exactly one prov:type
-   pair of the record, which the reader puts back (theorems C02_element_name_...).  The rest of the
-   element-tree level (nsmap, child order, bundles) is not modelled: it is decided per run
-   by the strict-content round-trip oracle (partial). *)
+   pair of the record, which the reader puts back (theorems C02_element_name_...); and for
+   the whole record (C02_record_roundtrip): the element the model of the writer builds for a
+   record, read by the model of the library's reader (names resolved in the scope of the
+   element that carries them, then normalised by new_record), gives back a record of the
+   same class and identifier that holds exactly the values of the pairs the writer was
+   given (C02_roundtrip_values_sound / _complete).  Both models are tied to the code on
+   every run by per-record correspondences (written element, records read).  nsmap
+   generation and bundles are not modelled: decided per run by the strict-content
+   round-trip oracle (partial). *)
 From Coq Require Import String List ZArith.
-From Prov Require Import Str Sexp Tables Nsm NsmProofs Values Record World JsonProofs Xml XmlProofs IsoProofs TimeProofs XmlLabel XmlLabelProofs.
+From Prov Require Import Str Sexp Tables Nsm NsmProofs Values Record World JsonProofs Xml XmlProofs IsoProofs TimeProofs XmlLabel XmlLabelProofs XmlRec XmlRead IdemProofs JsonRecProofs XmlRecProofs XmlReadProofs.
 Import ListNotations.
 Open Scope string_scope.
 
@@ -110,3 +116,53 @@ Proof. exact record_label_total. Qed.
 Theorem C02_element_name_plain : forall kind attrs, derive_label kind attrs = None ->
   forall k v, In (k, v) attrs -> is_prov_name "type" k = true -> subtype_local kind v = None.
 Proof. exact derive_label_none. Qed.
+
+(* ---- the whole record.  child_ok: the child's tag resolves, in the element's scope, to the attribute name, which
+   is bound in the container's manager, and the child is read as an argument that normalises to the value (xrt:
+   xrt_str, xrt_int, xrt_bool, xrt_float, xrt_id, xrt_time, xrt_formal_time, xrt_qn, xrt_ref, xrt_lang).  put_all:
+   what add_attributes builds from the pairs in the order of the children.  final_attrs: plus the asserted type of a
+   subtype element. *)
+Theorem C02_record_roundtrip : forall par ft fl prefix_of b scope kind ident pairs label rest x d',
+  let c := mkCtx par ft in
+  let m := bns b in
+  lookup kind prov_base_cls = Some kind -> kind <> "Membership" -> Builtins m ->
+  record_label kind pairs = Some (label, rest) ->
+  xml_record fl scope kind ident pairs = Some x ->
+  Forall (child_ok fl c m prefix_of scope) (sorted_pairs kind rest) ->
+  match ident with Some q => scoped scope q /\ Bound m q | None => is_element kind = false end ->
+  put_all (has_collection (sorted_pairs kind rest)) (sorted_pairs kind rest) [] = Some d' ->
+  exists sub b',
+    read_label label = Some (kind, sub) /\
+    xml_read_record par ft prefix_of b x = (b', OK tt) /\
+    bns b' = m /\ bid b' = bid b /\
+    brecs b' = (brecs b ++ [mkRec kind ident (final_attrs sub d')])%list.
+Proof. exact xml_record_roundtrip. Qed.
+Print Assumptions C02_record_roundtrip.
+
+Theorem C02_roundtrip_values_sound : forall kind rest sub d' x w,
+  put_all (has_collection (sorted_pairs kind rest)) (sorted_pairs kind rest) [] = Some d' ->
+  In w (attr_get x (final_attrs sub d')) ->
+  (exists kv, In kv rest /\ qn_eqb x (fst kv) = true /\ w = snd kv) \/
+  (exists ty, sub = Some ty /\ qn_eqb x (prov_qn "type") = true /\ w = VQn (prov_qn ty)).
+Proof. exact roundtrip_values_sound. Qed.
+
+Theorem C02_roundtrip_values_complete : forall kind rest sub d' kv,
+  put_all (has_collection (sorted_pairs kind rest)) (sorted_pairs kind rest) [] = Some d' ->
+  In kv rest ->
+  exists w, In w (attr_get (fst kv) (final_attrs sub d')) /\
+            (w = snd kv \/ set_same (snd kv) w = true \/ py_eq (snd kv) w = true).
+Proof. exact roundtrip_values_complete. Qed.
+
+(* all value kinds at once for an ordinary attribute: every value a record can hold after normalisation (stored; in
+   reachable worlds that is every value, GoodProofs) whose names the element's scope and the container declare *)
+Theorem C02_value_any_stored : forall fl c m scope a v, XScope scope -> Builtins m -> plain_attr a ->
+  IdemProofs.stored (cft c) v -> xvalue_ok c m scope v -> xrt fl c m scope a v.
+Proof. exact xrt_of_stored. Qed.
+Print Assumptions C02_value_any_stored.
+
+Example C02_record_roundtrip_applies :
+  exists x b', xml_record false w_scope "Agent" (Some (w_q "g")) w_pairs = Some x /\
+    xml_read_record None [] v_prefix v_b x = (b', OK tt) /\
+    brecs b' = [mkRec "Agent" (Some (w_q "g"))
+                  [(prov_qn "label", [VStr "lab"]); (w_q "k", [VInt 5]); (prov_qn "type", [VQn (prov_qn "Person")])]].
+Proof. exact xml_record_roundtrip_applies. Qed.
